@@ -289,5 +289,5 @@ static void one_case(vh::Ctx & c, uint64_t idx)
 
 int main(int argc, char ** argv)
 {
-  return vh::run(argc, argv, "C09", {640, 160000}, one_case);
+  return vh::run(argc, argv, "C09", {2000, 160000}, one_case);
 }
